@@ -398,7 +398,9 @@ func main() {
 	defer w.Close()
 	initWheel()
 	for _, c := range cases {
-		if c.Kind == "consts" {
+		if c.Kind == "gets" {
+			w.Put(runGets(c))
+		} else if c.Kind == "consts" {
 			w.Put(runConsts(c))
 		} else if c.Kind == "repr" {
 			w.Put(runRepr(c))
